@@ -115,6 +115,13 @@ def run(c):
         for lane in (("rel",) if c.quick else ("rel", "chk")):
             engine_b(c, t, pick, lane, concurrent=False)
             engine_b(c, t, pick[: len(pick) // 2], lane, concurrent=True)
+        if not c.quick:
+            # coverage-guided amplifier on Server::process (scripted transport, real App, this tree as cwd)
+            from .. import fuzzlane
+            seeds = [("serve", raw) for label, raw in inputs if "bufsize" not in label and len(raw) < 9000][::7][:400]
+            st = fuzzlane.run(c, "C04", int(os.environ.get("VERIF_FUZZ_SECONDS", "300")), seeds, t.root, only_ops={"serve"})
+            c.extra["libfuzzer_lane"] = st
+            c.cls("libfuzzer", st.get("coverage_edges", 0) > 0)
     finally:
         t.cleanup()
 
